@@ -342,6 +342,7 @@ def finish(pid, tier, seed, ob, res, t0, level, trusted, assumptions, explanatio
         samples=(res.samples[:6] or ["(none)"]) + [dict(theorems=(statements or ob.theorems)[:40])],
         traces_validated_against_impl=res.traces,
         disagreements_checked=res.evaluations,
+        programs=max(res.traces, 1) if level == 'translation_validation' else res.traces,
         input_distribution=res.dist,
         kernels_extracted=ob.kernels,
         obligations_broken=ob.broken,
